@@ -17,6 +17,17 @@ CHECKS = {
          'finite-sum update lemmas; geometric-series step cited (M); termination of the rejection loop not proved; '
          'negative increments outside the property.',
     technique='contract-based deductive verification: AST->VC symbolic execution of the real methods, z3 (quantified, unbounded), finite-scope counter-models + native replay'),
+ 'C20': dict(
+    category='other',
+    text='subsample (one/two/three series, recursion checked against its own contract), get_time_shift, get_Pk and estimate_R0 '
+         'are verified for all inputs by VC generation from the real source + z3 (lists of any length, graphs of any order; '
+         'spec function lastidx = last observation at or before a report time); the generating-function helpers by term-wise '
+         'obligations over a symbolic integer k (any maxk: summand = spec, each function the term-wise derivative of the previous); '
+         'get_Pnk only by a bounded native stand-in (all labelled graphs <= 5 nodes), labelled bounded and not counted as proved - hence level other.',
+    design_ref='DESIGN.md section 5 "C20"',
+    note='Trusted: own VC generator; numpy contracts (array copy, linspace(0,m,m+1)=[0..m], dot, elementwise ops); Counter/dict(G.degree()) '
+         'contracts; sum_k #{deg=k}=N and <k> > 0 iff an edge exists are cited finite-sum facts; estimate_R0 requires an edge and tau+gamma>0.',
+    technique='contract-based deductive verification (AST->VC + z3, loop invariants, spec functions); term-wise AST obligations for the PGF lambdas; bounded native enumeration for get_Pnk'),
 }
 
 NOT_APPLICABLE = {}
